@@ -13,6 +13,8 @@ import (
 	"fmt"
 	"io"
 	"strconv"
+	"sync"
+	"time"
 
 	"github.com/DavidGamba/go-getoptions"
 )
@@ -35,14 +37,17 @@ type dagEvent struct {
 }
 
 type dagScenario struct {
-	n        int
-	dep      [][]bool // dep[i][j]: task i depends on task j (j < i)
-	outcome  [][]int  // outcome[i][k]: result of attempt k+1 of task i
-	retries  int
-	serial   bool
-	limit    int // 0: none
-	cancelBy int // task that cancels the context while running, -1 none, -2 before Run
-	buffered bool
+	n                int
+	dep              [][]bool // dep[i][j]: task i depends on task j (j < i)
+	outcome          [][]int  // outcome[i][k]: result of attempt k+1 of task i
+	retries          int
+	serial           bool
+	limit            int // 0: none
+	cancelBy         int // task that cancels the context while running, -1 none, -2 before Run
+	cancelEarly      bool
+	mu               sync.Mutex
+	ranOnAfterCancel bool
+	buffered         bool
 
 	log       []dagEvent
 	inside    int
@@ -111,6 +116,7 @@ func newScenario(o scenarioOpts) *dagScenario {
 
 func (s *dagScenario) taskFn(i int) getoptions.CommandFn {
 	return func(ctx context.Context, opt *getoptions.GetOpt, args []string) error {
+		s.mu.Lock() // natively the task functions run in parallel
 		s.attempts[i]++
 		k := s.attempts[i]
 		s.log = append(s.log, dagEvent{enter: true, task: i, attempt: k})
@@ -119,14 +125,34 @@ func (s *dagScenario) taskFn(i int) getoptions.CommandFn {
 		if s.inside > s.maxInside {
 			s.maxInside = s.inside
 		}
+		s.mu.Unlock()
 		if s.buffered {
 			fmt.Fprintf(Stdout(ctx), "<%d.%d>", i, k)
 		}
+		if s.cancelEarly && s.cancelBy == i && !s.cancelled {
+			s.mu.Lock()
+			s.cancelled = true
+			s.cancelAt = len(s.log)
+			s.mu.Unlock()
+			vCancel(s.ctx)
+			if !vSymbolic() {
+				// natively: keep running long enough for the scheduler loop (1 ms tick)
+				// to go idle with the context cancelled
+				time.Sleep(30 * time.Millisecond)
+				s.ranOnAfterCancel = true
+			}
+		}
 		vYield(i)
+		s.mu.Lock()
 		if s.cancelBy == i && !s.cancelled {
 			s.cancelled = true
 			s.cancelAt = len(s.log)
 			vCancel(s.ctx)
+			if vGated() && s.inside > 1 {
+				// natively, under an enforced delivery order, the other running tasks
+				// stay inside for several scheduler ticks after this point
+				s.ranOnAfterCancel = true
+			}
 		}
 		out := oErr
 		if k-1 < len(s.outcome[i]) {
@@ -138,6 +164,7 @@ func (s *dagScenario) taskFn(i int) getoptions.CommandFn {
 		s.inside--
 		s.log = append(s.log, dagEvent{task: i, attempt: k, outcome: out})
 		vEvent("exit " + strconv.Itoa(i) + " outcome " + strconv.Itoa(out))
+		s.mu.Unlock()
 		switch out {
 		case oNil:
 			return nil
@@ -216,7 +243,7 @@ func (s *dagScenario) dependsOn(i, j int) bool {
 // orderingAsserts: C13's claims on the event log.
 func (s *dagScenario) orderingAsserts() {
 	exitedNil := make([]bool, s.n)
-	open := make([]int, s.n) // attempt currently inside, 0 none
+	open := make([]int, s.n)  // attempt currently inside, 0 none
 	done := make([]bool, s.n) // a nil attempt has been seen
 	for _, e := range s.log {
 		if e.enter {
